@@ -29,7 +29,7 @@ def model (args : List String) : Option String :=
     let memLimit ← mem.toNat?
     let ws ← parseOps ops
     let sd := if side == "req" then Side.req else Side.resp
-    let s0 := init sd limit memLimit (act == "R")
+    let s0 := init sd limit memLimit (act == "R" || act == "Rc")
     let (s1, obs) := run s0 ws
     let s2 := processBody s1                       -- the explicit Process*Body call
     let content := readLoop s2.bb.content 0 (List.replicate (s2.bb.content.length + 1) 512)
